@@ -82,6 +82,8 @@ pub struct Picture {
     pub vary: bool,
     /// a scripted error (other than "unknown command") comes after `size` / `type` lines of partial output
     pub ackp: bool,
+    /// the `type` line comes before the `size` line
+    pub tfirst: bool,
 }
 
 #[derive(Clone, Debug)]
@@ -116,6 +118,7 @@ pub struct Sh {
     pub waker: Option<Waker>,
     pub log: Vec<Value>,
     pub progress: u64,
+    pub idle_extra: u64,
     pub split_seed: u64,
     /// the seed as given (split_seed itself advances with every line)
     pub split_seed0: u64,
@@ -144,6 +147,7 @@ impl Sh {
             waker: None,
             log: vec![],
             progress: 0,
+            idle_extra: 0,
             split_seed,
             split_seed0: split_seed,
             mode: Mode::Ready,
@@ -230,19 +234,27 @@ impl Sh {
     fn idle_reply(&mut self) {
         let p = std::mem::take(&mut self.pend);
         let mut ls: Vec<Line> = p.iter().map(|s| Line::f(b"changed", s.as_bytes())).collect();
+        // a reply to idle may carry other fields too (see World.tla: idleExtra)
+        let extra = std::mem::take(&mut self.idle_extra);
+        if extra == 1 && !ls.is_empty() {
+            ls.insert(1, Line::f(b"partition", b"default"));
+        } else if extra == 2 {
+            ls.insert(0, Line::f(b"partition", b"default"));
+        }
         ls.push(Line::ok());
         self.mode = Mode::Ready;
         self.emit("idle", ls);
     }
 
-    pub fn change(&mut self, subs: &[String]) {
+    pub fn change(&mut self, subs: &[String], extra: u64) {
+        self.idle_extra = extra;
         let mut names = vec![];
         for s in subs {
             if !self.pend.contains(s) && !names.contains(s) {
                 names.push(s.clone());
             }
         }
-        self.log.push(json!({"e": "change", "subs": subs.iter().map(|x| x.as_bytes().to_vec()).collect::<Vec<_>>()}));
+        self.log.push(json!({"e": "change", "extra": extra, "subs": subs.iter().map(|x| x.as_bytes().to_vec()).collect::<Vec<_>>()}));
         self.pend.extend(names);
         if self.mode == Mode::Idle && !self.silent {
             self.idle_reply();
@@ -326,7 +338,11 @@ impl Sh {
                         let mut ls = vec![Line::f(b"size", data.len().to_string().as_bytes())];
                         if embedded {
                             if let Some(m) = &pic.mime {
-                                ls.push(Line::f(b"type", m));
+                                if pic.tfirst {
+                                    ls.insert(0, Line::f(b"type", m));
+                                } else {
+                                    ls.push(Line::f(b"type", m));
+                                }
                             }
                         }
                         ls.push(Line::bin(&data[off..off + n]));
@@ -415,6 +431,7 @@ impl Sh {
                     "ack" => self.emit("auth", vec![Line::ack(3, 0, b"password", b"incorrect password")]),
                     "ack4" => self.emit("auth", vec![Line::ack(4, 0, b"password", b"permission denied")]),
                     "garbage" => self.emit("auth", vec![Line::bad(b"!bad\n")]),
+                    "ack5" => self.emit("auth", vec![Line::ack(5, 0, b"", b"unknown command")]),
                     "partial" => {
                         // a reply that is cut before its end, then the server goes away
                         self.emit("auth", vec![Line::bad(b"O")]);
